@@ -63,6 +63,16 @@ func main() {
 		os.Exit(devHarness(os.Args[2:]))
 	case "list":
 		listMain()
+	case "selftest":
+		seed, _ := strconv.ParseInt(os.Getenv("VERIF_SEED"), 10, 64)
+		r := interp.SelfTest(seed)
+		fmt.Printf("operator self-test: %d cases, %d solver queries, %d failures\n", r.Cases, r.Queries, len(r.Failures))
+		for _, f := range r.Failures {
+			fmt.Println("  " + f)
+		}
+		if len(r.Failures) > 0 {
+			os.Exit(2)
+		}
 	default:
 		if len(os.Args) < 3 {
 			usage()
@@ -72,7 +82,7 @@ func main() {
 }
 
 func usage() {
-	fmt.Fprintln(os.Stderr, "usage: verifcheck <Cxx> quick|thorough | replay <file> | harness <name> [k=v ...] | list | worker")
+	fmt.Fprintln(os.Stderr, "usage: verifcheck <Cxx> quick|thorough | replay <file> | harness <name> [k=v ...] | selftest | list | worker")
 	os.Exit(2)
 }
 
@@ -895,6 +905,10 @@ func checkMain(prop, tier string) int {
 	}
 	defer pl.stop()
 
+	// the symbolic operators against Go's own arithmetic, in this process, on every run
+	selfCh := make(chan interp.SelfTestResult, 1)
+	go func() { selfCh <- interp.SelfTest(seed) }()
+
 	known := loadKnown()
 	var all []*exploreStats
 	for _, h := range pc.Harnesses {
@@ -1068,11 +1082,21 @@ func checkMain(prop, tier string) int {
 		exit = 1
 	}
 
+	self := <-selfCh
+	for _, f := range self.Failures {
+		fmt.Printf("ENGINE-ERROR property=%s operator self-test: %s\n", prop, f)
+	}
 	extra := map[string]interface{}{
 		"known_findings_seen": knownSeen, "unconfirmed": unconfirmed, "violations_reported": violationsOut,
 		"vacuity": vacuous, "traces_validated": validated, "translator_mismatches": mismatches,
+		"operator_selftest": map[string]interface{}{"cases": self.Cases, "solver_queries": self.Queries, "failures": self.Failures,
+			"what": "every integer binary/unary operator, shift and conversion of the symbolic interpreter and the float kernel of AVG on boundary and random operands: term evaluator and solver against Go's own result"},
 	}
 	writeEvidence(prop, tier, seed, all, pc, extra, nViol, time.Since(start).Seconds(), nil)
+	if len(self.Failures) > 0 && exit == 0 {
+		// the encoding of an operator is wrong: nothing decided above can be believed
+		return 2
+	}
 	return exit
 }
 
